@@ -15,6 +15,7 @@ func main() {
 		vlib.Group{Name: "simple", Gen: genSimpleGroup},
 		vlib.Group{Name: "multi", Gen: genMultiGroup},
 		vlib.Group{Name: "matrix", Gen: genMatrixGroup},
+		vlib.Group{Name: "constructors", Gen: genMatrixConstructors},
 		vlib.Group{Name: "iterators", Gen: genIterators},
 		vlib.Group{Name: "long", Gen: genLong},
 	)
@@ -57,6 +58,19 @@ func genSimpleGroup(g *vlib.G) {
 		genSimple(g, extremeCfg(k, []int64{0, -1, mx}, "Ux{0,-1,MaxInt64} w{1}"), 0, heavy)
 		if !k.directed() || g.Thorough() {
 			genSimple(g, smallCfg(k, 4, []float64{1}, false, "U4 w{1}"), 0, heavy)
+		}
+	}
+	// constructor parameters NewWeighted*Graph(self, absent): all 6x6 value
+	// combinations on U={0,1} (quick) / U={0,1,2} (thorough)
+	pv := paramValues()
+	for _, k := range []skind{sWeightedDirected, sWeightedUndirected} {
+		genSimpleSweep(g, k, 2, pv, pv, "U2 w{2,absent,self} sweep self x absent", heavy)
+		if g.Thorough() {
+			// U3: every absent value, self rotating through the values
+			for i, a := range pv {
+				self := pv[(i+2)%len(pv)]
+				genSimpleSweep(g, k, 3, []float64{self}, []float64{a}, "U3 w{2,absent,self} self="+fmtW(self)+" absent="+fmtW(a), heavy)
+			}
 		}
 	}
 	if g.Thorough() {
@@ -125,6 +139,15 @@ func genMultiGroup(g *vlib.G) {
 			genMulti(g, star(k), 0, 0, heavy)
 		}
 	}
+	// the EdgeWeightFunc parameter of the weighted multigraphs (default nil = sum)
+	for _, k := range []mkind{mWeightedDirected, mWeightedUndirected} {
+		cfg := multiCfgOf(k, "U2 pairs{01,10} L{0,1} w{1,2} EdgeWeightFunc=max", u2, [][2]int64{{0, 1}, {1, 0}}, l2, []float64{1, 2})
+		if k.directed() {
+			cfg = multiCfgOf(k, "U2 pairs{01} L{0,1} w{1,2} EdgeWeightFunc=max", u2, [][2]int64{{0, 1}}, l2, []float64{1, 2})
+		}
+		cfg.wfunc = "max"
+		genMulti(g, cfg, 0, 0, heavy)
+	}
 	if g.Thorough() {
 		for _, k := range kinds {
 			genMulti(g, multiCfgOf(k, "U2 pairs{00,01} L{0,1}", u2, [][2]int64{{0, 0}, {0, 1}}, l2, w1), 0, 0, heavy)
@@ -147,6 +170,29 @@ func genMatrixGroup(g *vlib.G) {
 	for _, k := range kinds {
 		genMatrix(g, matrixCfgOf(k, "n3 absent=Inf w{1,2,Inf}", 3, false, inf, 0, inf, []float64{1, 2, inf}, true), 0, heavy)
 		genMatrix(g, matrixCfgOf(k, "n3 From absent=0 init=1 w{1}", 3, true, 1, -7, 0, []float64{1}, true), 0, heavy)
+	}
+	// constructor parameters (self, absent, init): every absent value with n=3
+	// (self = 0, or 1 where absent = 0), the full self x absent product with n=2
+	// (plain and From constructors); thorough: the full product with n=3.
+	pv := paramValues()
+	for _, k := range kinds {
+		genMatrixSweep(g, k, 2, false, pv, pv, "n2 sweep self x absent x init", heavy)
+		genMatrixSweep(g, k, 2, true, pv, pv, "n2 From sweep self x absent x init", heavy)
+		for _, a := range pv {
+			self := 0.0
+			if a == 0 {
+				self = 1
+			}
+			genMatrixSweep(g, k, 3, false, []float64{a}, []float64{self}, "n3 absent="+fmtW(a)+" self="+fmtW(self)+" w{2,absent} init{absent,2}", heavy)
+		}
+		if g.Thorough() {
+			// n=3: every absent value with two more self values each (the full
+			// self x absent product runs with n=2; self never interacts with the edge state)
+			for i, a := range pv {
+				selfs := []float64{pv[(i+1)%len(pv)], pv[(i+3)%len(pv)]}
+				genMatrixSweep(g, k, 3, false, []float64{a}, selfs, "n3 sweep absent="+fmtW(a)+" x 2 self values x init", heavy)
+			}
+		}
 	}
 	if g.Thorough() {
 		for _, k := range kinds {
